@@ -23,15 +23,26 @@ type Hooks struct {
 	FailAt int // 1-based index of the primitive call to fail (0 = none)
 	Fired  string
 	Log    []string
+	// Vanished: the injected failure is "this name does not exist (any more)" -- a typed PathError matching ErrNotExist,
+	// what a primitive reports when another process removed the entry in between -- instead of the opaque ErrInjected.
+	Vanished bool
+	// FiredName is the path the failed primitive was called with ("" for calls on files opened before names were tracked).
+	FiredName string
 }
 
-func (h *Hooks) tick(what string) error {
+func (h *Hooks) tick(what string) error { return h.tickN(what, "") }
+
+func (h *Hooks) tickN(what, name string) error {
 	h.mu.Lock()
 	defer h.mu.Unlock()
 	h.Calls++
 	h.Log = append(h.Log, what)
 	if h.FailAt > 0 && h.Calls == h.FailAt {
 		h.Fired = what
+		h.FiredName = name
+		if h.Vanished {
+			return &hackpadfs.PathError{Op: strings.ToLower(strings.TrimPrefix(what, "File.")), Path: name, Err: hackpadfs.ErrNotExist}
+		}
 		return ErrInjected
 	}
 	return nil
@@ -50,11 +61,11 @@ type core struct {
 
 // Open is the one method every FS has.
 func (c *core) Open(name string) (hackpadfs.File, error) {
-	if err := c.h.tick("Open"); err != nil {
+	if err := c.h.tickN("Open", name); err != nil {
 		return nil, err
 	}
 	f, err := c.inner.Open(name)
-	return c.h.wrapFile(f, err, 0)
+	return c.h.wrapNamed(f, err, 0, name)
 }
 
 // Supported returns the interfaces of the given list that inner implements (MountFS is always available: the
@@ -131,6 +142,15 @@ type mfile struct {
 	inner    hackpadfs.File
 	h        *Hooks
 	writable bool
+	name     string
+}
+
+func (h *Hooks) wrapNamed(f hackpadfs.File, err error, flag int, name string) (hackpadfs.File, error) {
+	w, err := h.wrapFile(f, err, flag)
+	if m, ok := w.(*mfile); ok {
+		m.name = name
+	}
+	return w, err
 }
 
 func (h *Hooks) wrapFile(f hackpadfs.File, err error, flag int) (hackpadfs.File, error) {
@@ -141,14 +161,14 @@ func (h *Hooks) wrapFile(f hackpadfs.File, err error, flag int) (hackpadfs.File,
 }
 
 func (f *mfile) Stat() (hackpadfs.FileInfo, error) {
-	if err := f.h.tick("File.Stat"); err != nil {
+	if err := f.h.tickN("File.Stat", f.name); err != nil {
 		return nil, err
 	}
 	return f.inner.Stat()
 }
 
 func (f *mfile) Read(p []byte) (int, error) {
-	if err := f.h.tick("File.Read"); err != nil {
+	if err := f.h.tickN("File.Read", f.name); err != nil {
 		return 0, err
 	}
 	return f.inner.Read(p)
@@ -157,7 +177,7 @@ func (f *mfile) Read(p []byte) (int, error) {
 func (f *mfile) Close() error {
 	if f.writable {
 		// closing a file that was written can lose data: a primitive the helper relies on
-		if err := f.h.tick("File.Close(w)"); err != nil {
+		if err := f.h.tickN("File.Close(w)", f.name); err != nil {
 			// a failing close means the written data did not reach the store: model that by losing it
 			_ = hackpadfs.TruncateFile(f.inner, 0)
 			_ = f.inner.Close()
@@ -168,14 +188,14 @@ func (f *mfile) Close() error {
 }
 
 func (f *mfile) Write(p []byte) (int, error) {
-	if err := f.h.tick("File.Write"); err != nil {
+	if err := f.h.tickN("File.Write", f.name); err != nil {
 		return 0, err
 	}
 	return hackpadfs.WriteFile(f.inner, p)
 }
 
 func (f *mfile) ReadDir(n int) ([]hackpadfs.DirEntry, error) {
-	if err := f.h.tick("File.ReadDir"); err != nil {
+	if err := f.h.tickN("File.ReadDir", f.name); err != nil {
 		return nil, err
 	}
 	return hackpadfs.ReadDirFile(f.inner, n)
@@ -186,28 +206,28 @@ func (f *mfile) Seek(offset int64, whence int) (int64, error) {
 }
 
 func (f *mfile) Truncate(size int64) error {
-	if err := f.h.tick("File.Truncate"); err != nil {
+	if err := f.h.tickN("File.Truncate", f.name); err != nil {
 		return err
 	}
 	return hackpadfs.TruncateFile(f.inner, size)
 }
 
 func (f *mfile) Chmod(mode hackpadfs.FileMode) error {
-	if err := f.h.tick("File.Chmod"); err != nil {
+	if err := f.h.tickN("File.Chmod", f.name); err != nil {
 		return err
 	}
 	return hackpadfs.ChmodFile(f.inner, mode)
 }
 
 func (f *mfile) Chown(uid, gid int) error {
-	if err := f.h.tick("File.Chown"); err != nil {
+	if err := f.h.tickN("File.Chown", f.name); err != nil {
 		return err
 	}
 	return hackpadfs.ChownFile(f.inner, uid, gid)
 }
 
 func (f *mfile) Chtimes(atime, mtime time.Time) error {
-	if err := f.h.tick("File.Chtimes"); err != nil {
+	if err := f.h.tickN("File.Chtimes", f.name); err != nil {
 		return err
 	}
 	return hackpadfs.ChtimesFile(f.inner, atime, mtime)
